@@ -190,7 +190,13 @@ size_t small_vectors() {
   o.emplace_back();
   o.emplace_back();
   dispenso::SmallVector<int, 8> iv(3);
-  return v.size() + w.size() + o.size() + iv.size() + w.capacity();
+  // the smallest legal inline capacities: growth arithmetic must still make progress
+  dispenso::SmallVector<Tracked, 1> one;
+  one.emplace_back();
+  one.push_back(t);
+  dispenso::SmallVector<Tracked, 3> three;
+  three.emplace_back();
+  return v.size() + w.size() + o.size() + iv.size() + w.capacity() + one.size() + three.size();
 }
 
 size_t concurrent_vectors() {
